@@ -153,33 +153,85 @@ ENUMERATORS = ['__contains__', '__iter__', 'keys', 'item', 'length', 'getPropert
 
 
 def r10c(chk, rid='R10.c'):
-    chk.rule(rid, 'one enumerator: membership, iteration, keys, item, length and getProperties(all=False) of a declaration block all go through __nnames, which scans the item list in reverse and keeps the first occurrence of each normalised name; getProperty picks the last !important entry else the last entry')
+    chk.rule(rid, 'one view of a declaration block, decided by evaluation: membership, iteration, keys, item, length, getProperty and getProperties (with the helpers they call, resolved in the class) are evaluated on their syntax trees over model blocks with repeated names, literal spellings, comments and !important entries before and after plain ones, and compared with the prescribed view')
+    from sa.absint import Evaluator, Raised, Record
+
     m = chk.repo.mod(DECL)
-    cls = m.get('CSSStyleDeclaration', ast.ClassDef)
-    for name in ENUMERATORS:
-        node = None
-        for st in cls.body:
-            if isinstance(st, ast.FunctionDef) and st.name == name:
-                node = st
-            elif isinstance(st, ast.Assign) and any(isinstance(t, ast.Name) and t.id == name for t in st.targets):
-                node = st
-        if node is None:
-            raise AnalysisError(f'CSSStyleDeclaration.{name} vanished')
-        ok = '__nnames()' in ast.unparse(node)
-        chk.ob(rid, DECL, f'CSSStyleDeclaration.{name}', 'enumerates through __nnames', ok, 'a second way of counting names can disagree with the others', shape=True)
-    fn = m.get('CSSStyleDeclaration.__nnames')
-    src = ast.unparse(fn)
-    chk.ob(rid, DECL, 'CSSStyleDeclaration.__nnames', 'reverse scan keeping the first occurrence of each normalised name', 'for item in reversed(self.seq)' in src and 'val.name not in names' in src and 'return reversed(names)' in src, src[:200], shape=True)
-    gp = m.get('CSSStyleDeclaration.getProperty')
-    g = cfgmod.CFG(gp)
-    src = ast.unparse(gp)
-    loops = [n for n in ast.walk(gp) if isinstance(n, ast.For)]
-    ok = len(loops) == 1 and text(loops[0].iter) == 'reversed(self.seq)'
-    chk.ob(rid, DECL, 'CSSStyleDeclaration.getProperty', 'scans the item list in reverse', ok, 'the effective entry is the LAST matching one')
-    prio = [n for n in ast.walk(gp) if isinstance(n, ast.If) and text(n.test) == 'val.priority' and any(isinstance(x, ast.Return) and text(x.value) == 'val' for x in n.body)]
-    keep = [n for n in ast.walk(gp) if isinstance(n, ast.If) and text(n.test) == 'not found' and any(text(x) == 'found = val' for x in n.body)]
-    chk.ob(rid, DECL, 'CSSStyleDeclaration.getProperty', 'an !important entry wins immediately, otherwise the first hit of the reverse scan is kept', bool(prio) and bool(keep), 'cascade rule changed')
-    chk.ob(rid, DECL, 'CSSStyleDeclaration.getProperty', 'names are matched in normalised form', 'nname == val.name' in src or 'val.name == nname' in src, '', shape=True)
+
+    class PropM(Record):
+        pass
+
+    def P(tag, name, literal, prio=''):
+        return Record(value=PropM(tag=tag, name=name, literalname=literal, priority=prio), type='Property')
+
+    blocks = {
+        'empty': [],
+        'comments only': [Record(value=Record(cssText='/*c*/'), type='COMMENT')],
+        'plain': [P(1, 'a', 'a'), P(2, 'b', 'b')],
+        'repeated name': [P(1, 'a', 'a'), P(2, 'b', 'B'), Record(value=Record(cssText='/*c*/'), type='COMMENT'), P(3, 'a', 'A'), P(4, 'c', 'c')],
+        'important first': [P(1, 'a', 'a', 'important'), P(2, 'a', 'a'), P(3, 'b', 'b'), P(4, 'b', 'b', 'important'), P(5, 'b', 'b', 'important'), P(6, 'a', 'A')],
+    }
+
+    def spec(block):
+        props = [it.value for it in block if isinstance(it.value, PropM)]
+        names = []
+        for p in reversed(props):
+            if p.name not in names:
+                names.append(p.name)
+        names.reverse()
+
+        def effective(name, normalize=True):
+            hits = [p for p in props if (normalize and p.name == name.lower()) or p.literalname == name]
+            imp = [p for p in hits if p.priority]
+            return (imp or hits or [None])[-1]
+        return props, names, effective
+
+    def run(member, block, **args):
+        me = Record(seq=list(block), _normalize=lambda x: x.lower() if x else x)
+        node = m.get(f'CSSStyleDeclaration.{member}') if m.has(f'CSSStyleDeclaration.{member}') else None
+        ev = Evaluator(node, intrinsics={'Property': PropM}, module=m, cls='CSSStyleDeclaration') if node is not None else None
+        if ev is None:
+            # a class-level property(...): read it as an attribute of the model object
+            ev = Evaluator(m.get('CSSStyleDeclaration.keys'), intrinsics={'Property': PropM}, module=m, cls='CSSStyleDeclaration')
+            return ev.expr(ast.parse(f'self.{member}', mode='eval').body, {'self': me})
+        return ev.run(self=me, **args)
+
+    def tags(x):
+        if isinstance(x, Raised):
+            return repr(x)
+        if x is None or isinstance(x, (str, int, bool)):
+            return x
+        if isinstance(x, PropM):
+            return x.tag
+        return [tags(y) for y in x]
+
+    n = 0
+    bad = []
+
+    def expect(label, got, want):
+        nonlocal n
+        n += 1
+        if tags(got) != tags(want):
+            bad.append(f'{label}: {tags(got)!r}, prescribed {tags(want)!r}')
+
+    for bname, block in blocks.items():
+        props, names, effective = spec(block)
+        expect(f'{bname}: keys()', run('keys', block), names)
+        expect(f'{bname}: length', run('length', block), len(names))
+        expect(f'{bname}: iteration', run('__iter__', block), [effective(x) for x in names])
+        expect(f'{bname}: getProperties()', run('getProperties', block), [effective(x) for x in names])
+        expect(f'{bname}: getProperties(all=True)', run('getProperties', block, all=True), props)
+        for i in range(-len(names) - 1, len(names) + 2):
+            want = names[i] if -len(names) <= i < len(names) else ''
+            expect(f'{bname}: item({i})', run('item', block, index=i), want)
+        for name in ('a', 'A', 'b', 'B', 'c', 'zz'):
+            expect(f'{bname}: {name!r} in block', run('__contains__', block, nameOrProperty=name), name.lower() in names)
+            for normalize in (True, False):
+                expect(f'{bname}: getProperty({name!r}, normalize={normalize})', run('getProperty', block, name=name, normalize=normalize), effective(name, normalize))
+            expect(f'{bname}: getProperties({name!r})', run('getProperties', block, name=name), [effective(name)] if effective(name) else [])
+            expect(f'{bname}: getProperties({name!r}, all=True)', run('getProperties', block, name=name, all=True), [p for p in props if p.name == name.lower()])
+    chk.extra['declaration_view_cases'] = n
+    chk.ob(rid, DECL, 'CSSStyleDeclaration', f'all {n} reads of five model blocks agree with one view: distinct names in the order of their last entry; the effective entry of a name is its last !important entry, else its last entry (keys, length, item, in, iteration, getProperty, getProperties; by evaluation)', not bad, '; '.join(bad[:3]))
 
 
 def r10d(chk, rid='R10.d'):
